@@ -151,7 +151,8 @@ def judge(case):
     live = None
     live_idx = {}
     for vi, ws in enumerate(fam):
-        text = M.render(M.program("live", M.ret([(M.lit_str("https://cdn.example/g%d.js" % gi), w) for gi, w in enumerate(ws)]),
+        # (a new revision often comes under a new experiment name: checkout_v1 -> checkout_v2)
+        text = M.render(M.program("live" if vi % 2 == 0 else "live_v%d" % vi, M.ret([(M.lit_str("https://cdn.example/g%d.js" % gi), w) for gi, w in enumerate(ws)]),
                                   salt=salt, splitters=["uid"]))
         try:
             if live is None:
@@ -365,11 +366,14 @@ def fixed_families():
 
 
 SPELL = {"plain": lambda w: str(w), "x7": lambda w: str(7 * w), "padded": lambda w: "%04d" % w, "nano": lambda w: "0.%09d" % w,
-         "tenths": lambda w: "%d.%d" % (w // 10, w % 10), "micro": lambda w: "0.%06d" % w, "x1e6": lambda w: str(w * 10 ** 6), "float": lambda w: "%d.0" % w}
+         "tenths": lambda w: "%d.%d" % (w // 10, w % 10), "micro": lambda w: "0.%06d" % w, "x1e6": lambda w: str(w * 10 ** 6), "float": lambda w: "%d.0" % w,
+         "x1e20": lambda w: str(w * 10 ** 20), "x1e16.0": lambda w: str(w * 10 ** 16) + ".0", "1e-10": lambda w: "0.%010d" % w, "1e-15": lambda w: "0.%015d" % w}
 
 
 def spelling_cases():
-    for ci, ws in enumerate([[1, 2], [2, 1], [1, 9], [4, 5, 5, 4], [1, 1, 2], [3, 0, 1], [1, 2, 3, 4, 5, 6, 7, 8], [9, 1], [5, 4], [1, 1], [7, 3, 0, 5]]):
+    for ci, ws in enumerate([[1, 2], [2, 1], [1, 9], [4, 5, 5, 4], [1, 1, 2], [3, 0, 1], [1, 2, 3, 4, 5, 6, 7, 8], [9, 1], [5, 4], [1, 1], [7, 3, 0, 5],
+                                # magnitudes that differ within one vector (10 next to 5, 100 next to 3: other exponents once scaled)
+                                [10, 5], [20, 10, 5], [1, 10], [100, 3, 10], [50, 1000, 7]]):
         yield {"spellings": True, "ws": ws, "salt": [None, "s1", ""][ci % 3], "n_units": 120}
 
 
